@@ -227,6 +227,7 @@ Proof.
            intros f T' _. apply cdata_fact; [apply nce_of_single; exact El|exact Hek].
       * (* comment *)
         cbn [ser_node] in Ek. destruct (valid_string false (c_xml11 cf) s); cbn [negb] in Ek; [|discriminate].
+        destruct (c_fixed cf && (occurs2 45 45 s || ends_with 45 s)); [discriminate|].
         unfold markup in Ek. destruct (forallb (c_can cf) (ser_gStartComment ++ s ++ ser_gEndComment)); [|discriminate].
         injection Ek as Ek. subst ok.
         cbn [expressible] in Hek. apply andb_true_iff in Hek. destruct Hek as [H1 H2].
@@ -238,6 +239,7 @@ Proof.
       * (* PI *)
         cbn [ser_node] in Ek.
         destruct (valid_string false (c_xml11 cf) t && valid_string false (c_xml11 cf) d); cbn [negb] in Ek; [|discriminate].
+        destruct (c_fixed cf && occurs2 63 62 d); [discriminate|].
         unfold markup in Ek.
         destruct (forallb (c_can cf) (ser_gStartPI ++ t ++ match d with [] => [] | _ :: _ => 32 :: d end ++ ser_gEndPI)); [|discriminate].
         injection Ek as Ek. subst ok.
